@@ -39,6 +39,8 @@ pub const BAD: &[&str] = &[
     "This is wrong ,right after the comma.",
     // a lint that encloses other lints
     "He said teh teh thing again.",
+    // two different lints on exactly the same characters
+    "Then i'm going to teh store again.",
     // links, addresses and host names in running text
     "Visit https://www.example.org/docs for teh details.",
     "Write to someone@example.com or see www.example.net for an update.",
@@ -377,6 +379,10 @@ pub fn edit(text: &str, lang: &str, rng: &mut Rng) -> String {
                 }
             }
             format!("{text} ")
+        }
+        _ if rng.chance(1, 5) => {
+            // select all, delete (or leave a blank line behind)
+            rng.pick(&["", "\n", "   ", "\t\n"]).to_string()
         }
         _ => {
             // replace everything
